@@ -6,6 +6,20 @@ use rsa::BigUint;
 
 use crate::prims::{Prims, aes256_ctr128, be_fixed, rsa_private_parts, rsa_public_parts};
 
+thread_local! {
+    static FORCED_CTR: std::cell::Cell<Option<[u8; 16]>> = const { std::cell::Cell::new(None) };
+}
+
+/// mirror of the repository's verification hook: force the KDF-derived AES-CTR counter block of the
+/// reference on this thread (v3 local tokens, k1/k3 PIE wraps, k1/k3 seals)
+pub fn force_ctr_block(b: Option<[u8; 16]>) {
+    FORCED_CTR.with(|f| f.set(b));
+}
+
+fn derived_ctr(d: &[u8]) -> [u8; 16] {
+    FORCED_CTR.with(|f| f.get()).unwrap_or_else(|| d.try_into().expect("16-byte counter block"))
+}
+
 pub fn le64(n: u64) -> [u8; 8] {
     n.to_le_bytes()
 }
@@ -65,7 +79,7 @@ fn local_keys<P: Prims>(ver: u8, key: &[u8; 32], n: &[u8]) -> LocalKeys {
         3 => {
             let x = P::hkdf384(&[], key, &[b"paseto-encryption-key", n], 48);
             let ak = P::hkdf384(&[], key, &[b"paseto-auth-key-for-aead", n], 48);
-            LocalKeys { ek: x[..32].try_into().unwrap(), n2: x[32..].to_vec(), ak }
+            LocalKeys { ek: x[..32].try_into().unwrap(), n2: derived_ctr(&x[32..]).to_vec(), ak }
         }
         4 => {
             let x = P::blake2b(key, 56, &[b"paseto-encryption-key", n]);
@@ -198,7 +212,7 @@ pub fn pie_wrap<P: Prims>(ver: u8, header: &str, wk: &[u8; 32], n: &[u8; 32], pt
     let (c, t) = if ver % 2 == 1 {
         let x = P::hmac384(wk, &[&[0x80], n]);
         let ak = &P::hmac384(wk, &[&[0x81], n])[..32];
-        let c = aes256_ctr128::<P>(x[..32].try_into().unwrap(), x[32..48].try_into().unwrap(), ptk);
+        let c = aes256_ctr128::<P>(x[..32].try_into().unwrap(), &derived_ctr(&x[32..48]), ptk);
         let t = P::hmac384(ak, &[header.as_bytes(), n, &c]).to_vec();
         (c, t)
     } else {
@@ -221,7 +235,7 @@ pub fn pie_unwrap<P: Prims>(ver: u8, header: &str, wk: &[u8; 32], blob: &[u8]) -
     // re-wrap the candidate plaintext and compare (stream ciphers are involutions)
     let ptk = if ver % 2 == 1 {
         let x = P::hmac384(wk, &[&[0x80], n]);
-        aes256_ctr128::<P>(x[..32].try_into().unwrap(), x[32..48].try_into().unwrap(), c)
+        aes256_ctr128::<P>(x[..32].try_into().unwrap(), &derived_ctr(&x[32..48]), c)
     } else {
         let x = P::blake2b(wk, 56, &[&[0x80], n]);
         P::xchacha20(x[..32].try_into().unwrap(), x[32..56].try_into().unwrap(), c)
@@ -340,7 +354,7 @@ pub fn pke_seal<P: Prims>(ver: u8, pk: &[u8], eph: &[u8], pdk: &[u8; 32]) -> Opt
             let xk = P::p384_ecdh(&esk, &pk)?;
             let x = P::sha384(&[&[1], h.as_bytes(), &xk, &epk, &pk]);
             let ak = P::sha384(&[&[2], h.as_bytes(), &xk, &epk, &pk]);
-            let edk = aes256_ctr128::<P>(x[..32].try_into().unwrap(), x[32..].try_into().unwrap(), pdk);
+            let edk = aes256_ctr128::<P>(x[..32].try_into().unwrap(), &derived_ctr(&x[32..]), pdk);
             let t = P::hmac384(&ak, &[h.as_bytes(), &epk, &edk]);
             Some([t.to_vec(), epk.to_vec(), edk].concat())
         }
@@ -354,7 +368,7 @@ pub fn pke_seal<P: Prims>(ver: u8, pk: &[u8], eph: &[u8], pdk: &[u8; 32]) -> Opt
             let k = P::sha384(&[&c]);
             let x = P::hmac384(&k, &[&[1], h.as_bytes(), eph]);
             let ak = P::hmac384(&k, &[&[2], h.as_bytes(), eph]);
-            let edk = aes256_ctr128::<P>(x[..32].try_into().unwrap(), x[32..].try_into().unwrap(), pdk);
+            let edk = aes256_ctr128::<P>(x[..32].try_into().unwrap(), &derived_ctr(&x[32..]), pdk);
             let t = P::hmac384(&ak, &[h.as_bytes(), &c, &edk]);
             Some([t.to_vec(), edk, c].concat())
         }
@@ -397,7 +411,7 @@ pub fn pke_unseal<P: Prims>(ver: u8, sk: &[u8], blob: &[u8]) -> Option<[u8; 32]>
                 return None;
             }
             let x = P::sha384(&[&[1], h.as_bytes(), &xk, epk, &pk]);
-            aes256_ctr128::<P>(x[..32].try_into().unwrap(), x[32..].try_into().unwrap(), edk).try_into().ok()
+            aes256_ctr128::<P>(x[..32].try_into().unwrap(), &derived_ctr(&x[32..]), edk).try_into().ok()
         }
         1 => {
             if blob.len() != 48 + 32 + 512 {
@@ -417,7 +431,7 @@ pub fn pke_unseal<P: Prims>(ver: u8, sk: &[u8], blob: &[u8]) -> Option<[u8; 32]>
                 return None;
             }
             let x = P::hmac384(&k, &[&[1], h.as_bytes(), &r]);
-            aes256_ctr128::<P>(x[..32].try_into().unwrap(), x[32..].try_into().unwrap(), edk).try_into().ok()
+            aes256_ctr128::<P>(x[..32].try_into().unwrap(), &derived_ctr(&x[32..]), edk).try_into().ok()
         }
         _ => None,
     }
